@@ -95,7 +95,7 @@ def _step_call(it, fn, formula, offset, token, in_string, in_path, in_range, in_
         it.block(main.body, env)
     except ContinueEx:
         pass
-    return dict(offset=env.get('offset'), token=env.get('token'), inString=env.get('inString'), inPath=env.get('inPath'),
+    return dict(offset=env.get('offset'), token=env.get('token'), inString=env.get('inString'), inPath=env.get('inPath'), inError=env.get('inError'),
                 emitted=[(t.tvalue, t.ttype, t.tsubtype) for t in tokens.items])
 
 
@@ -156,11 +156,14 @@ def _step_native(fn, formula, offset, token, in_string, in_path, in_range, in_er
     proposed state; the state at the next evaluation of the loop guard (or right after the loop) is the step's result.  A
     proposed state the real run never passes through is not reachable: NotReachable."""
     from pyvc.engine import NotReachable
-    if in_range or in_error or not (0 <= offset < len(formula)):
+    if in_range or not (0 <= offset < len(formula)):
         raise NotReachable('mode not realised by the harness')
+    if in_error and (in_string or in_path or not token.startswith('#')):
+        raise NotReachable('an error literal begins with # and is met outside quotes')
+    # (inside an error literal the pending token is the literal so far: the scanner enters the state at its '#')
     text, at = _realise(formula, offset, token, in_string, in_path)
     states, exc = trace_scan(text)
-    want = dict(offset=at, token=token, inString=bool(in_string), inPath=bool(in_path), inRange=False, inError=False)
+    want = dict(offset=at, token=token, inString=bool(in_string), inPath=bool(in_path), inRange=False, inError=bool(in_error))
     hit = [i for i, st in enumerate(states) if not st['done'] and all(st[k] == v for k, v in want.items()) and st['formula'] == text]
     if not hit:
         raise NotReachable(f'the real scan of {text!r} never has offset {at} with pending token {token!r}')
@@ -171,7 +174,7 @@ def _step_native(fn, formula, offset, token, in_string, in_path, in_range, in_er
         raise NotReachable('no state after the step was observed')
     nxt = states[i + 1]
     shift = at - offset
-    return dict(offset=nxt['offset'] - shift, token=nxt['token'], inString=nxt['inString'], inPath=nxt['inPath'],
+    return dict(offset=nxt['offset'] - shift, token=nxt['token'], inString=nxt['inString'], inPath=nxt['inPath'], inError=nxt['inError'],
                 emitted=nxt['emitted'][len(states[i]['emitted']):])
 
 
@@ -532,4 +535,49 @@ UNITS.append(Unit(
     requires=lambda formula, offset, token, *f: And(_normal_req(['%'])(formula, offset, token, *f), Or(spec.eq(S.length(token), 0), M.FLOAT_OK(token))),
     cases=[Case('"%" after a number turns that number into ONE operand worth a hundredth of it; after anything else it multiplies by 0.01; one character consumed',
                 lambda *a: True, _percent_step)],
+    call=_step_call, native_call=_step_native, cross_key=_key, timeout_ms=20000))
+
+
+# ---- error literals: inside one, every character joins the literal until it IS one of the seven error codes -------------------------------------
+ERROR_CODES = ['#NULL!', '#DIV/0!', '#VALUE!', '#REF!', '#NAME?', '#NUM!', '#N/A']
+
+
+# every proper prefix of a code (complete over the prefixes that can lead to a code) and two that cannot
+_ERROR_PREFIXES = sorted({c[:k] for c in ERROR_CODES for k in range(1, len(c))} - set(ERROR_CODES)) + ['#SPILL', '#x']
+
+
+def _error_step(formula, offset, token, out):
+    if out.kind != 'ret':
+        return False
+    o = out.value
+    ch = _char(formula, offset)
+    grown = S.concat(token, ch)
+    complete = Or(*[spec.eq(grown, c) for c in ERROR_CODES])
+    em = o['emitted']
+    if len(em) == 0:
+        return And(Not(complete), spec.eq(o['token'], grown), spec.eq(o['offset'], offset + 1), o['inError'] is True or o['inError'] == True)  # noqa
+    if len(em) == 1:
+        tv, tt, ts = em[0]
+        return And(complete, spec.eq(tv, grown), tt == 'operand', ts == 'error', spec.eq(o['token'], ''), spec.eq(o['offset'], offset + 1),
+                   o['inError'] is False or o['inError'] == False)  # noqa
+    return False
+
+
+def _error_req(formula, offset, token, *flags):
+    # the literal so far: '#' followed by characters that do not yet make up a code (the scanner leaves the state as soon as they do)
+    t = lift(token).t if is_sym(token) else None
+    starts = Sym(z3.PrefixOf(z3.StringVal('#'), t), 'bool') if t is not None else token.startswith('#')
+    incomplete = And(*[Not(spec.eq(token, c)) for c in ERROR_CODES])
+    return And(offset >= 0, offset < S.length(formula), starts, incomplete)
+
+
+UNITS.append(Unit(
+    id='C02/tokenizer.getTokens/error_literal_step', target=TARGET,
+    inputs=[('formula', Prim('str', domain=['#N/A+1', '#DIV/0!', 'IF(A1,#N/A,1)', '#REF!*2', '#NAME?', '#NUM!)'])), ('offset', Prim('int', domain=[1, 2, 3, 4, 5, 6])),
+            ('token', Fork([Const(t, repr(t)) for t in _ERROR_PREFIXES])), ('inString', Const(False, '-')), ('inPath', Const(False, '-')),
+            ('inRange', Const(False, '-')), ('inError', Const(True, 'in an error literal'))],
+    requires=_error_req, fork='product',
+    cases=[Case('inside an error literal every character - "/" , "!" , "?" and digits as much as letters - joins the literal; when the literal so far IS one of the '
+                'seven error codes it is emitted as ONE operand of subtype error and the state is left; nothing else is emitted, one character is consumed',
+                lambda *a: True, lambda formula, offset, token, s, p, r, e, out: _error_step(formula, offset, token, out))],
     call=_step_call, native_call=_step_native, cross_key=_key, timeout_ms=20000))
